@@ -122,6 +122,10 @@ func classes(login, pass string) []hdrClass {
 		// empty secrets: what a lookup of an unknown login in a table yields when the miss is not told from a hit
 		{"unknown-user-empty-password", basic("x" + login + ":"), false},
 		{"both-empty", basic(":"), false},
+		// the right header with the case of its base64 text changed (another byte string; equal only to a comparison
+		// that folds case)
+		{"right-header-case-swapped", []string{"Basic " + swapCase(right)}, true},
+		{"right-header-lower-cased", []string{"Basic " + strings.ToLower(right)}, true},
 		// thorough tier
 		{"empty", []string{""}, true},
 		{"bearer-right-b64", []string{"Bearer " + right}, true},
@@ -164,7 +168,7 @@ func classes(login, pass string) []hdrClass {
 	return out
 }
 
-const quickClasses = 9
+const quickClasses = 11
 
 // ---------------------------------------------------------------------------------------
 // the rig
